@@ -170,21 +170,29 @@ def gen_history(rng, allow_unclean):
             ops.append(["rename", p, nxt]); live.discard(p); live.add(nxt); nxt += 1
         else:
             ops.append(["nextday"])
-    if (rng.random() < 0.35 or "rows" in FORCE) and len(live) >= 2:
+    # at most ONE special tail per history (the abstract machine's cost grows fast with the number of index commands)
+    if FORCE:
+        tail = sorted(FORCE)[0]
+    else:
+        r = rng.random()
+        tail = "rows" if r < 0.2 else "empty" if r < 0.35 else "twice" if r < 0.6 else "explicit" if r < 0.85 else None
+    if tail and len([o for o in ops if o[0] == "reindex"]) > 2:
+        ops[:] = ops[:1] + [o for o in ops[1:] if o[0] != "reindex"][:8]       # keep the history short before a tail
+    if tail == "rows" and len(live) >= 2:
         # the page indexed last loses all its notes (the highest row ids become free), then another page gains notes
         last = max(live)
         ops += [["reindex", None]] + [["delnote", last, 0] for _ in range(4)] + [["reindex", None], ["addnote", min(live)],
                                                                                  ["addnote", min(live)], ["reindex", None]]
-    if (rng.random() < 0.25 or "empty" in FORCE) and live:
+    elif tail == "empty" and live:
         # a page is indexed while it holds no note at all, then gets notes again and is edited twice
         e = max(live)
         ops += [["reindex", None]] + [["delnote", e, 0] for _ in range(5)] + [["reindex", None], ["addnote", e], ["addnote", e], ["reindex", None],
                                                                                ["nextday"], ["editnote", e, 0], ["reindex", None], ["editnote", e, 1], ["reindex", None]]
-    if (rng.random() < 0.4 or "twice" in FORCE) and 1 in live:
+    elif tail == "twice" and 1 in live:
         # the same note edited on two later days (first stamp inserts the date, the second replaces it)
-        j = rng.randint(0, 1)
+        j = 0 if FORCE else rng.randint(0, 1)      # note 0 of page 1 is the multi-line one (a bullet line under it)
         ops += [["reindex", None], ["nextday"], ["editnote", 1, j], ["reindex", None], ["nextday"], ["editnote", 1, j]]
-    if allow_unclean and (rng.random() < 0.6 or "explicit" in FORCE) and len(live) >= 2:
+    elif tail == "explicit" and allow_unclean and len(live) >= 2:
         # an explicit-path reindex that is NOT followed by a write-back (the edited note was already stamped today):
         # the hash map then holds only the given page, and the plain reindex meets the other pages as "new"
         a = min(live)
@@ -315,7 +323,7 @@ def run(oc, tier, seed):
             break
         # the first histories of every run contain each special tail, whatever the seed
         FORCE.clear()
-        FORCE.update({0: {"rows"}, 1: {"twice"}, 2: {"explicit"}, 3: {"rows", "twice"}, 4: {"empty"}}.get(i, set()))
+        FORCE.update({0: {"rows"}, 1: {"twice"}, 2: {"explicit"}, 3: {"empty"}, 5: {"explicit"}}.get(i, set()))
         ok = run_history(eng, rng, oc, allow_unclean=(i % 3 == 2) and not oc.corr_mismatch)
         FORCE.clear()
         oc.nontriv(("h", i))
